@@ -87,4 +87,42 @@ def recActiveAfter (r : Rec) (n : Nat) : Bool :=
   r.present && decide ((if r.start > 0 then r.start else 0) ≤ (n : Int)) &&
   (match r.endDate with | none => true | some d => decide ((n : Int) + 1 < d))
 
+/-! ### the whole row from the records alone (C11 "the daily series can be reconstructed")
+
+`recNewOn`, `recEndedAs`, `recEndedOn` read the count columns of day `n` off one record; `recRow`
+assembles all eight columns of the row of day `n` from the list of records.  `Props/C11.lean` proves
+`row w n = recRow (records of w after N days) n` for every `n < N`. -/
+
+/-- how the record says the emission ended: `0` repaired by the program, `1` naturally repaired,
+anything else: expired -/
+def recEndedAs (r : Rec) (k : Nat) : Bool :=
+  match k with
+  | 0 => decide (r.status = .repaired) && !decide (r.by_ = .natural)
+  | 1 => decide (r.status = .repaired) && decide (r.by_ = .natural)
+  | _ => decide (r.status = .expired)
+
+/-- "New Leaks" of day `n`: the record exists and `max start 0 = n` -/
+def recNewOn (r : Rec) (n : Nat) : Bool :=
+  r.present && decide ((if r.start > 0 then r.start else 0) = (n : Int))
+
+/-- ended in kind `k` in the update of day `n`: the record's end date is day `n + 1` -/
+def recEndedOn (r : Rec) (k n : Nat) : Bool :=
+  recEndedAs r k && decide (r.endDate = some ((n : Int) + 1))
+
+def sumRecs (rs : List Rec) (f : Rec → Int) : Int := (rs.map f).sum
+
+/-- the complete timeseries row of day `n` recomputed from the records -/
+def recRow (rs : List Rec) (n : Nat) : Row :=
+  { new := sumRecs rs (fun r => ind (recNewOn r n)),
+    active := sumRecs rs (fun r => ind (recActiveAfter r n)),
+    repaired := sumRecs rs (fun r => ind (recEndedOn r 0 n)),
+    natRepaired := sumRecs rs (fun r => ind (recEndedOn r 1 n)),
+    expired := sumRecs rs (fun r => ind (recEndedOn r 2 n)),
+    emis := sumRecs rs (fun r => ind (recActiveAfter r n) * r.rate),
+    emisMit := sumRecs rs (fun r => if r.repairable then ind (recActiveAfter r n) * r.rate else 0),
+    emisNonMit := sumRecs rs (fun r => if r.repairable then 0 else ind (recActiveAfter r n) * r.rate) }
+
+/-- the records of a world after `N` days -/
+def records (w : List Em) (N : Nat) : List Rec := w.map (fun e => recOf e N)
+
 end LdarModel.World
